@@ -233,6 +233,23 @@ Fixpoint quote_body (l : list N) : list N :=
 
 Definition quote_json_string (s : list N) : list N := 34 :: quote_body s ++ [34].
 
+(* well-formed UTF-16 (what `String.prototype.isWellFormed` tests): every surrogate code unit is half of a
+   leading-trailing pair.  JSON.stringify is meant to emit such texts whatever lone surrogates the
+   strings and keys of the value contain ("well-formed JSON.stringify"). *)
+Fixpoint wf16 (l : list N) : bool :=
+  match l with
+  | [] => true
+  | c :: r =>
+    if is_high c then
+      match r with
+      | d :: r' => is_low d && wf16 r'
+      | [] => false
+      end
+    else negb (is_low c) && wf16 r
+  end.
+
+Definition is_ascii (c : N) : bool := c <? 128.
+
 (* ------------------------------------------------------------------------------------------ *)
 (* objects: CreateDataProperty in source order = first position, last value *)
 
